@@ -36,3 +36,8 @@ claim("C11",
       "Complete products, each case executed on the real emulator: all 256 cartridge-type bytes x ROM/RAM size codes x 15 image-length classes (construction may fail; otherwise the machine must survive window accesses, control writes, clock selectors and CPU cycles); every supported cartridge x every control region x all 256 values x every (region, value-class) second write; full 64 KiB read/write sweeps and DMA from every page with LCD/RAM on and off; every opcode (512 encodings x 8 operand pairs) and all ordered pairs of 55 representative opcodes with pointers, SP and PC in 22 address-region classes on five controller kinds; the 11 undefined opcodes must exit with status 1 and the message (sub-process). A Go panic is recovered per case and reported with a replayable case; a process exit is attributed by the supervisor.",
       "Level note: the oracle is crash-freedom (no panic / no exit), which is what the statement asks. Programs are bounded to 64 (thorough 2,048) cycles each. Non-termination and memory growth are not observed.",
       level="fault_enumeration")
+
+claim("C01",
+      "exhaustive enumeration of the single-step relation (state x instruction -> state) of the real CPU against an independent reference SM83 interpreter",
+      "For all 245 base and 256 CB opcodes the real CPU executes one instruction from enumerated states and every register, flag, addressed memory write and (on a spread of cases) every writable memory byte is compared with a reference interpreter decoded from the opcode bit fields: 8-bit ALU over A x operand x flag nibbles, INC/DEC/CB/accumulator operations over value x all 16 flag nibbles, DAA also row by row against the repository's daa.csv, INC/DEC rr over all 65,536 values, ADD SP,e and LD HL,SP+e over SP x e (all 2^24 in the thorough tier), ADD HL,rr over the stated carry-chain sub-domain, POP AF over all low bytes, and every opcode over 13 pointer placements x 16 flag nibbles x operand pairs x 4 code placements (WRAM, HRAM, across DFFF/E000, wrapping FFFF/0000).",
+      "Trusted: ref/sm83.go (cross-checked against daa.csv at run time). ADD HL,rr is a stated sub-domain of 2^32. Data pointers avoid side-effecting I/O registers. STOP's PC increment is a don't-care.")
